@@ -191,7 +191,9 @@ def _magic(mod, s, fl):
 DRIVE_SHAPES = ['c:/x', 'C:\\x', 'c:', 'c:/', '//h/s/x', '\\\\h\\s\\x', '//h/s', '//h/s/', '//?/UNC/h/s/x', '//?/c:/x',
                 '//h/s{a}/x', '//h/s|t/x', '//h/{s,t}/x', '//h/s/{a,b}', '//h/s/a|b', '//h/s/*', '//h*/s/x', '//h/s[a]/x',
                 '//./c:/x', 'c:/{a,b}', 'c:/a|b', '//?/GLOBAL/UNC/h/s/x', '//h/s\\x/y', '//?/GLOBAL/UNC/h*/s/x',
-                '//?/GLOBAL/UNC/h[1]/s?/x', '//?/UNC/h*/s/x', '//./GLOBAL/GLOBAL/UNC/h(/s)/x', '//?/GLOBAL/c:/x*', '//h!/-s/~x']
+                '//?/GLOBAL/UNC/h[1]/s?/x', '//?/UNC/h*/s/x', '//./GLOBAL/GLOBAL/UNC/h(/s)/x', '//?/GLOBAL/c:/x*', '//h!/-s/~x',
+                # an extended prefix that stops short of a full UNC drive (UNCSHORT)
+                '//?/unc/x', '//?/unc', '//?/global/unc/x', '//./unc/x', '//?/UNC/h']
 
 
 def drive_bounds(s):
